@@ -68,4 +68,12 @@ theorem xonsh_builder_table :
 theorem range_raise_arguments_in_order :
     XV.Gen.rangeRaiseTable.all (fun r => decide (0 ≤ r.2.2.1) && decide (r.2.2.1 ≤ r.2.2.2)) = true := by decide
 
+/-- C07: raw capture is switched on in exactly three places (`f!(`, `with! ..:`, `cmd!`) and the captured text is used in
+    exactly the three matching alternatives (table read off the regenerated actions) -/
+theorem macro_sites_table :
+    XV.Gen.macroTable =
+      [("with_macro_stmt", 0, "handle_with_macro_stmt"), ("with_macro_start", 0, "handle_with_macro_start"), ("primary", 2, "macro_call"),
+       ("func_macro_start", 0, "handle_func_macro_start"), ("proc_cmd", 6, "proc_macro_arg"), ("proc_cmd", 7, "proc_macro_arg"),
+       ("proc_macro_start", 0, "handle_proc_macro_start")] := by decide
+
 end XVC
